@@ -84,7 +84,7 @@ def run(v):
     out = os.path.join(C.WORK, PID)
     fresh_out(out)
     if v.tier == "quick":
-        args = ["-n", "9", "-points", "81"]
+        args = ["-n", "10", "-points", "90"]
     else:
         args = ["-n", "24", "-points", "1500"]
     rc, o = C.sh([C.harness_bin(HARNESS), "crash", "-mode", "kill", "-out", out, "-seed", str(v.seed)] + args, timeout=20000)
